@@ -328,6 +328,10 @@ END { print "L" mark(); w(); %TAIL% }`, 0, "async"},
 	{"pipe-write-blocked-main-rule", `NR == 2 { s = sprintf("%70000s", "x"); pre(); for (i = 0; i < 60; i++) print s | "%CMD%"; post() }
 { print "L" mark() }
 END { %TAIL% }`, 4, "async"},
+	// a background grandchild keeps the command's stdout/stderr open after the command is killed:
+	// the call must still return (goawk bounds its wait for the output copier)
+	{"system-grandchild-holds-pipe", `BEGIN { print "L" mark(); pre(); r = system("spawnhold:70000;mark:%MARK%;block"); post(); %TAIL% }`, 0, "async"},
+	{"pipe-close-grandchild-holds-pipe", `BEGIN { print "L" mark(); pre(); print "x" | "spawnhold:70000;mark:%MARK%;block"; r = close("spawnhold:70000;mark:%MARK%;block"); post(); %TAIL% }`, 0, "async"},
 	{"two-children", `BEGIN { print "L" mark(); pre(); print "x" | "%CMD%"; "block" | getline y; post(); %TAIL% }`, 0, "async"},
 }
 
